@@ -19,7 +19,7 @@ def lookupOp (t : List Gen.OpRow) (k : List Char) : Option (Nat × Bool) :=
 def tableOKB (t : List Gen.OpRow) : Bool :=
   (match lookupOp t ['u', '-'] with
    | some (pn, ra) =>
-     ra && BinOp.all.all fun o =>
+     ra && BinOp.all.all fun (o : BinOp) =>
        match lookupOp t o.sym with
        | some (p, r) => !r && decide (p < pn)
        | none => false
@@ -59,7 +59,7 @@ theorem tbl_of_tableOK (h : TableOK Gen.operators) : Nonempty Tbl := by
     rw [hn] at h1
     simp only [Bool.and_eq_true, List.all_eq_true] at h1
     obtain ⟨hra, hall⟩ := h1
-    have hb : ∀ o, ∃ p, lookupOp Gen.operators o.sym = some (p, false) ∧ p < pn := by
+    have hb : ∀ o : BinOp, ∃ p, lookupOp Gen.operators o.sym = some (p, false) ∧ p < pn := by
       intro o
       have := hall o (BinOp.mem_all o)
       cases ho : lookupOp Gen.operators o.sym with
@@ -127,6 +127,8 @@ def nodesOf (pend : List OpItem) : List Node := pend.map fun i => Node.operator 
 def toksOf (pend : List OpItem) : List Tok := pend.map OpItem.tok
 
 def AllGe (p : Nat) (pend : List OpItem) : Prop := ∀ x ∈ pend, p ≤ x.lvl
+
+theorem AllGe.nil (p : Nat) : AllGe p [] := by intro x hx; cases hx
 
 theorem AllGe.mono {p q : Nat} {l : List OpItem} (h : AllGe p l) (hq : q ≤ p) : AllGe q l :=
   fun x hx => Nat.le_trans hq (h x hx)
@@ -239,7 +241,8 @@ theorem step_lp (s : SY) : step s lpTok' = .ok { s with stack := lpTok' :: s.sta
 /-- context condition: the top of the stack does not capture an expression of level `l` -/
 def Ok (l : Nat) : List Tok → Prop
   | [] => True
-  | s :: _ => isOperator s = false ∨ (∃ o, s = binTok o ∧ o.prec < l) ∨ (s = negTok ∧ negPrec ≤ l)
+  | s :: _ => (isOperator s = false ∧ s.t ≠ .function) ∨ (∃ o, s = binTok o ∧ o.prec < l) ∨
+              (s = negTok ∧ negPrec ≤ l)
 
 theorem BinOp.prec_lt (o : BinOp) : o.prec < negPrec := by cases o <;> simp [BinOp.prec, negPrec]
 theorem BinOp.prec_pos (o : BinOp) : 0 < o.prec := by cases o <;> simp [BinOp.prec]
@@ -250,51 +253,57 @@ theorem binTok_ne_negTok (o : BinOp) : binTok o ≠ negTok := by
 theorem binTok_inj {o o' : BinOp} (h : binTok o = binTok o') : o = o' := by
   cases o <;> cases o' <;> simp [binTok, BinOp.sym] at h <;> rfl
 
+/-- the pop condition of the operator loop for an incoming operator `(p1, right1)` -/
+def popIt (p1 : Nat) (right1 : Bool) (x : Tok) : Bool :=
+  isOperator x && (match opInfo x with
+    | some (p2, _) => if right1 then p1 < p2 else p1 ≤ p2
+    | none => false)
+
+theorem step_operator (s : SY) (t : Tok) (p1 : Nat) (r1 : Bool) (hop : isOperator t = true)
+    (ht1 : t.t ≠ .operand) (ht2 : t.t ≠ .function) (ht3 : t.t ≠ .argument)
+    (hinfo : opInfo t = some (p1, r1))
+    (hbad : ((s.stack.takeWhile isOperator).any fun x => (opInfo x).isNone) = false) :
+    step s t = (popWhile (popIt p1 r1) (s.stack.length + 1) s).map fun s' => { s' with stack := t :: s'.stack } := by
+  unfold step
+  simp only [ht1, ht2, ht3, if_false, hop, if_true, hinfo, hbad, Bool.false_eq_true]
+  rfl
+
 /-- an incoming binary operator pops the pending operators of an operand of its level and stops -/
 theorem step_bin (T : Tbl) (o : BinOp) (s : SY) (pend : List OpItem) (st : List Tok)
     (hs : s.stack = toksOf pend ++ st) (hok : StackOK st) (hge : AllGe o.prec pend) (hctx : Ok o.prec st) :
     step s (binTok o) = .ok { s with output := s.output ++ nodesOf pend, stack := binTok o :: st } := by
   have hbad := stack_not_bad T s.stack (by rw [hs]; exact hok.append pend)
-  have hop : isOperator (binTok o) = true := OpItem.tok_isOp (.bin o)
   have hfuel : pend.length < s.stack.length + 1 := by rw [hs]; simp [toksOf]; omega
-  have hpop := popWhile_pend
-    (fun x => isOperator x && (match opInfo x with
-          | some (p2, _) => if false = true then T.tp o < p2 else decide (T.tp o ≤ p2)
-          | none => false)) pend st s (s.stack.length + 1)
+  have hpop := popWhile_pend (popIt (T.tp o) false) pend st s (s.stack.length + 1)
     (by
       intro x hx
       have hl := hge x hx
       cases x with
       | bin o' =>
-        simp only [OpItem.tok, OpItem.tok_isOp (.bin o'), T.bin o', Bool.true_and]
         simp only [OpItem.lvl] at hl
-        simpa using (T.ord o o').mpr hl
+        have := (T.ord o o').mpr hl
+        have h1 : isOperator (binTok o') = true := OpItem.tok_isOp (.bin o')
+        simp [popIt, OpItem.tok, h1, T.bin o', this]
       | neg =>
-        simp only [OpItem.tok, OpItem.tok_isOp .neg, T.neg, Bool.true_and]
-        simpa using Nat.le_of_lt (T.top o))
+        have := Nat.le_of_lt (T.top o)
+        have h1 : isOperator negTok = true := OpItem.tok_isOp .neg
+        simp [popIt, OpItem.tok, h1, T.neg, this])
     (by
       cases st with
       | nil => trivial
       | cons t st =>
         simp only [Ok] at hctx
         rcases hctx with h | ⟨o', rfl, h⟩ | ⟨rfl, h⟩
-        · simp [h]
-        · simp only [T.bin o', OpItem.tok_isOp (.bin o'), Bool.true_and]
-          have : ¬ T.tp o ≤ T.tp o' := by rw [T.ord]; omega
-          simpa using this
+        · simp [popIt, h.1]
+        · have : ¬ T.tp o ≤ T.tp o' := by rw [T.ord]; omega
+          simp [popIt, T.bin o', this]
         · have := BinOp.prec_lt o; omega)
     hfuel
+  rw [step_operator s (binTok o) (T.tp o) false (OpItem.tok_isOp (.bin o)) (by simp [binTok]) (by simp [binTok])
+    (by simp [binTok]) (T.bin o) hbad]
   have hs' : s = { s with stack := toksOf pend ++ st } := by rw [← hs]
   rw [hs'] at hpop ⊢
-  simp only [step, binTok, isOperator] at hop ⊢
-  simp only [show (TType.opIn = TType.operand) = False by simp, show (TType.opIn = TType.function) = False by simp,
-    show (TType.opIn = TType.argument) = False by simp, if_false]
-  have hinfo := T.bin o
-  simp only [binTok] at hinfo
-  simp only [decide_true, Bool.or_true, Bool.true_or, Bool.or_false, if_true, hinfo]
-  simp only [hs] at hbad
-  simp only [hbad, Bool.false_eq_true, if_false]
-  simp only [binTok, isOperator] at hpop
+  simp only at hpop ⊢
   rw [hpop]
   rfl
 
@@ -302,36 +311,24 @@ theorem step_bin (T : Tbl) (o : BinOp) (s : SY) (pend : List OpItem) (st : List 
 theorem step_neg (T : Tbl) (s : SY) (hok : StackOK s.stack) :
     step s negTok = .ok { s with stack := negTok :: s.stack } := by
   have hbad := stack_not_bad T s.stack hok
-  have hpop : popWhile (fun x => isOperator x && (match opInfo x with
-          | some (p2, _) => if true = true then decide (T.tn < p2) else decide (T.tn ≤ p2)
-          | none => false)) (s.stack.length + 1) s = .ok s := by
+  have hpop : popWhile (popIt T.tn true) (s.stack.length + 1) s = .ok s := by
     cases hst : s.stack with
     | nil => simp [popWhile, hst]
     | cons t st =>
-      have : (isOperator t && (match opInfo t with
-          | some (p2, _) => if true = true then decide (T.tn < p2) else decide (T.tn ≤ p2)
-          | none => false)) = false := by
+      have : popIt T.tn true t = false := by
         cases hop : isOperator t with
-        | false => rfl
+        | false => simp [popIt, hop]
         | true =>
           obtain ⟨i, rfl⟩ := hok t (by rw [hst]; simp) hop
           cases i with
           | bin o =>
-            simp only [OpItem.tok, T.bin o, Bool.true_and, if_true]
             have := T.top o
-            simp; omega
-          | neg => simp [OpItem.tok, T.neg]
-      simp only [popWhile, hst, this]
-      simp
-  have hinfo := T.neg
-  simp only [negTok] at hinfo
-  simp only [step, negTok, isOperator]
-  simp only [show (TType.opPre = TType.operand) = False by simp, show (TType.opPre = TType.function) = False by simp,
-    show (TType.opPre = TType.argument) = False by simp, if_false]
-  simp only [decide_true, Bool.or_true, Bool.true_or, Bool.or_false, if_true, hinfo, hbad, Bool.false_eq_true, if_false]
-  simp only [negTok, isOperator] at hpop
-  simp only [if_true] at hpop ⊢
-  rw [hpop]
+            have h2 : ¬ T.tn < T.tp o := by omega
+            simp [popIt, OpItem.tok, T.bin o, h2]
+          | neg => simp [popIt, OpItem.tok, T.neg]
+      simp [popWhile, hst, this]
+  rw [step_operator s negTok T.tn true (OpItem.tok_isOp .neg) (by simp [negTok]) (by simp [negTok])
+    (by simp [negTok]) T.neg hbad, hpop]
   rfl
 
 /-- a closing parenthesis of a sub-expression -/
@@ -393,5 +390,193 @@ theorem step_comma (s : SY) (pend : List OpItem) (st : List Tok) (wv : List Bool
     show (TType.argument = TType.function) = False by simp, if_false, if_true]
   rw [hpop]
   simp [hw, ha]
+
+/-! ### the main invariant -/
+
+theorem Ok.mono {l l' : Nat} {st : List Tok} (h : Ok l st) (hl : l ≤ l') : Ok l' st := by
+  cases st with
+  | nil => trivial
+  | cons t st =>
+    simp only [Ok] at h ⊢
+    rcases h with h | ⟨o, rfl, h⟩ | ⟨rfl, h⟩
+    · exact Or.inl h
+    · exact Or.inr (Or.inl ⟨o, rfl, by omega⟩)
+    · exact Or.inr (Or.inr ⟨rfl, by omega⟩)
+
+theorem Ok.nonop {l : Nat} {t : Tok} {st : List Tok} (h1 : isOperator t = false) (h2 : t.t ≠ .function) :
+    Ok l (t :: st) := Or.inl ⟨h1, h2⟩
+
+theorem Ok.notFn {l : Nat} {t : Tok} {st : List Tok} (h : Ok l (t :: st)) : t.t ≠ .function := by
+  simp only [Ok] at h
+  rcases h with h | ⟨o, rfl, _⟩ | ⟨rfl, _⟩
+  · exact h.2
+  · simp [binTok]
+  · simp [negTok]
+
+theorem setTopTrue_idem (l : List Bool) : setTopTrue (setTopTrue l) = setTopTrue l := by
+  cases l <;> rfl
+
+/-- after the tokens of `e`: the stack has grown by pending operators of level ≥ level e whose
+    flushing completes the RPN of `e`; `were_values` has its top set, `arg_count` is unchanged -/
+def After (e : Expr) (s : SY) (r : Except PErr SY) : Prop :=
+  ∃ pend out', r = .ok { output := out', stack := toksOf pend ++ s.stack,
+                          wereValues := setTopTrue s.wereValues, argCount := s.argCount } ∧
+    AllGe e.level pend ∧ out' ++ nodesOf pend = s.output ++ rpn e
+
+def SYInv (e : Expr) : Prop :=
+  WF e → ∀ s : SY, StackOK s.stack → Ok e.level s.stack → After e s (run s (ptoks e))
+
+theorem syInv_atom (e : Expr) (tk : Tok) (h1 : ptoks e = [tk]) (h2 : rpn e = [.operand tk])
+    (h3 : tk.t = .operand) : SYInv e := by
+  intro _ s _ _
+  refine ⟨[], s.output ++ [.operand tk], ?_, AllGe.nil _, (by simp [nodesOf, h2])⟩
+  rw [h1]
+  simp [run, step_operand s tk h3, toksOf]
+
+theorem numTok_t (n : NumLit) (p : Bool) : (numTok n p).t = .operand := by
+  cases p <;> rfl
+
+theorem ptoksArgs_cons2 (a a' : Expr) (as' : List Expr) :
+    ptoksArgs (a :: a' :: as') = ptoks a ++ commaTok :: ptoksArgs (a' :: as') := by
+  simp [ptoksArgs]
+
+theorem ptoksArgs_single (a : Expr) : ptoksArgs [a] = ptoks a := by simp [ptoksArgs]
+
+theorem run_args (T : Tbl) (f : List Char) (st : List Tok) (hst : StackOK st) (wv : List Bool)
+    (ac : List Nat) : ∀ (args : List Expr), (∀ x ∈ args, SYInv x) → (∀ x ∈ args, WF x) →
+      ∀ (out : List Node) (w : Bool) (k : Nat), (args = [] → w = false) →
+      run { output := out, stack := argLp :: fnName f :: st, wereValues := w :: wv, argCount := k :: ac }
+          (ptoksArgs args ++ [argRp]) =
+        .ok { output := out ++ rpnArgs args ++ [.func (fnName f) (k + args.length)], stack := st,
+              wereValues := wv, argCount := ac } := by
+  intro args
+  induction args with
+  | nil =>
+    intro _ _ out w k hw
+    have := hw rfl
+    subst this
+    simp only [ptoksArgs, List.nil_append, run]
+    rw [step_argRp _ [] f st false wv k ac rfl rfl rfl]
+    simp [nodesOf, rpnArgs]
+  | cons a as ih =>
+    intro hP hwf out w k _
+    have hstk : StackOK (argLp :: fnName f :: st) :=
+      (hst.cons_nonop (by simp [fnName, isOperator])).cons_nonop (by simp [argLp, isOperator])
+    obtain ⟨pend, out', h1, _, h3⟩ := hP a (by simp) (hwf a (by simp))
+      { output := out, stack := argLp :: fnName f :: st, wereValues := w :: wv, argCount := k :: ac }
+      hstk (Ok.nonop (by simp [argLp, isOperator]) (by simp [argLp]))
+    simp only [setTopTrue] at h1
+    cases as with
+    | nil =>
+      rw [ptoksArgs_single, run_append_ok _ h1]
+      simp only [run]
+      rw [step_argRp _ pend f st true wv k ac rfl rfl rfl]
+      simp only [if_true, rpnArgs, List.append_nil, List.length_cons, List.length_nil, Nat.zero_add]
+      rw [h3]
+    | cons a' as' =>
+      rw [ptoksArgs_cons2, List.append_assoc, run_append_ok _ h1]
+      simp only [List.cons_append, run]
+      rw [step_comma _ pend (fnName f :: st) wv k ac rfl rfl rfl]
+      simp only
+      have := ih (fun x hx => hP x (by simp [hx])) (fun x hx => hwf x (by simp [hx]))
+        (out' ++ nodesOf pend) false (k + 1) (by intro h; cases h)
+      rw [this, h3]
+      simp only [rpnArgs, List.append_assoc, List.length_cons]
+      rw [show k + 1 + (as'.length + 1) = k + (as'.length + 1 + 1) by omega]
+
+theorem syInv (T : Tbl) : ∀ e, SYInv e := by
+  intro e
+  induction e using Expr.ind with
+  | num n p => exact syInv_atom _ (numTok n p) (by simp [ptoks]) (by simp [rpn]) (numTok_t n p)
+  | str s => exact syInv_atom _ (strTok s) (by simp [ptoks]) (by simp [rpn]) rfl
+  | bool b => exact syInv_atom _ (boolTok b) (by simp [ptoks]) (by simp [rpn]) rfl
+  | err c => exact syInv_atom _ (errTok c) (by simp [ptoks]) (by simp [rpn]) rfl
+  | ref r => exact syInv_atom _ (refTok r) (by simp [ptoks]) (by simp [rpn]) rfl
+  | neg e ih =>
+    intro hwf s hok _
+    simp only [WF] at hwf
+    obtain ⟨pend, out', h1, h2, h3⟩ := ih hwf.1 { s with stack := negTok :: s.stack }
+      (hok.cons_op .neg) (Or.inr (Or.inr ⟨rfl, hwf.2⟩))
+    refine ⟨pend ++ [.neg], out', ?_, ?_, ?_⟩
+    · simp only [ptoks, run, step_neg T s hok]
+      simpa [toksOf, OpItem.tok] using h1
+    · intro x hx
+      rcases List.mem_append.mp hx with hx | hx
+      · exact Nat.le_trans hwf.2 (h2 x hx)
+      · simp at hx; subst hx; simp [OpItem.lvl, Expr.level]
+    · simp only [nodesOf, List.map_append, List.map_cons, List.map_nil, OpItem.tok, rpn] at h3 ⊢
+      rw [← List.append_assoc, h3]; simp
+  | bin o l r ihl ihr =>
+    intro hwf s hok hctx
+    simp only [WF] at hwf
+    obtain ⟨hwl, hwr, hl, hr⟩ := hwf
+    simp only [Expr.level] at hctx
+    obtain ⟨pl, out1, h1, h2, h3⟩ := ihl hwl s hok (hctx.mono hl)
+    have hstep := step_bin T o
+      { output := out1, stack := toksOf pl ++ s.stack, wereValues := setTopTrue s.wereValues,
+        argCount := s.argCount } pl s.stack rfl hok (h2.mono hl) hctx
+    obtain ⟨pr, out2, h4, h5, h6⟩ := ihr hwr
+      { output := out1 ++ nodesOf pl, stack := binTok o :: s.stack,
+        wereValues := setTopTrue s.wereValues, argCount := s.argCount }
+      (hok.cons_op (.bin o)) (Or.inr (Or.inl ⟨o, rfl, hr⟩))
+    refine ⟨pr ++ [.bin o], out2, ?_, ?_, ?_⟩
+    · simp only [ptoks]
+      rw [run_append_ok _ h1]
+      simp only [run, hstep]
+      simpa [toksOf, OpItem.tok, setTopTrue_idem] using h4
+    · intro x hx
+      rcases List.mem_append.mp hx with hx | hx
+      · exact Nat.le_of_lt (Nat.lt_of_lt_of_le hr (h5 x hx))
+      · simp at hx; subst hx; simp [OpItem.lvl, Expr.level]
+    · simp only [nodesOf, List.map_append, List.map_cons, List.map_nil, OpItem.tok, rpn] at h6 h3 ⊢
+      rw [← List.append_assoc, h6, h3]; simp
+  | paren e ih =>
+    intro hwf s hok hctx
+    simp only [WF] at hwf
+    obtain ⟨pend, out', h1, _, h3⟩ := ih hwf { s with stack := lpTok' :: s.stack }
+      (hok.cons_nonop (by simp [lpTok', isOperator])) (Ok.nonop (by simp [lpTok', isOperator]) (by simp [lpTok']))
+    refine ⟨[], out' ++ nodesOf pend, ?_, AllGe.nil _, (by simp [nodesOf, rpn] at h3 ⊢; exact h3)⟩
+    simp only [ptoks, List.cons_append, run, step_lp]
+    rw [run_append_ok _ h1]
+    simp only [run]
+    rw [step_rp _ pend s.stack rfl (by
+      cases hs : s.stack with
+      | nil => trivial
+      | cons t st => rw [hs] at hctx; exact hctx.notFn)]
+    simp [toksOf]
+  | call a f args ih =>
+    intro hwf s hok _
+    simp only [WF] at hwf
+    have hargs := (WFs_iff args).mp hwf.2
+    refine ⟨[], s.output ++ rpnArgs args ++ [.func (fnName f) args.length], ?_,
+      AllGe.nil _, (by simp [nodesOf, rpn])⟩
+    simp only [ptoks, List.cons_append, run, step_fn, step_argLp]
+    have := run_args T f s.stack hok (setTopTrue s.wereValues) s.argCount args ih hargs s.output false 0
+      (fun _ => rfl)
+    simp only [Nat.zero_add] at this
+    rw [this]
+    simp [toksOf]
+
+/-! ### `drain`, `prepare`, `buildAst` -/
+
+theorem drain_after (e : Expr) (r : Except PErr SY) (h : After e {} r) :
+    (match r with | .ok s => drain s | .error x => .error x) = .ok (rpn e) := by
+  obtain ⟨pend, out', rfl, _, h3⟩ := h
+  simp only [drain]
+  have := popWhile_pend (fun x => decide (x.st ≠ .start) && decide (x.st ≠ .stop)) pend []
+    { output := out', stack := [], wereValues := setTopTrue [], argCount := [] } (pend.length + 1)
+    (by intro x _; simp [x.st_ne_start, x.st_ne_stop]) trivial (by omega)
+  simp only [List.append_nil] at this ⊢
+  simp only [toksOf, List.length_map] at this ⊢
+  rw [this]
+  simpa using h3
+
+theorem prepare_append (a b : List Tok) : prepare [] (a ++ b) = prepare [] a ++ prepare [] b := by
+  induction a with
+  | nil => rfl
+  | cons t ts ih =>
+    simp only [List.cons_append, prepare]
+    split <;> (try split) <;> (try split) <;> (try split) <;> (try split) <;>
+      (try cases t.v) <;> simp [ih, Model.Value.lookup]
 
 end XlVerif.Lemmas.C02
